@@ -646,7 +646,9 @@ func UnpackRRWithHeader(h RR_Header, msg []byte, off int) (rr RR, off1 int, err 
 		return rr, off, nil
 	}
 
-	off, err = rr.unpack(msg, off)
+	// The RDATA ends at end: the per-type unpackers take the end of msg as the end of the
+	// RDATA (UnpackRR truncates msg the same way before calling us).
+	off, err = rr.unpack(msg[:end], off)
 	if err != nil {
 		return nil, end, err
 	}
